@@ -63,7 +63,11 @@ def evalC : ATm α → Option α
   | .mul a b => match evalC a, evalC b with
     | some x, some y => some (x * y)
     | _, _ => none
-  | .div a b => match evalC a, evalC b with
+  | .div a b =>
+    -- `1 / 0` passes `is_number()` (gcd 1 0 = 1) and `dest_number` gives it the value 0; every other
+    -- zero denominator is the "divide by zero" exception of real_eval
+    if a = .lit 1 ∧ b = .lit 0 then some 0 else
+    match evalC a, evalC b with
     | some x, some y => if y = 0 then none else some (x / y)
     | _, _ => none
 
@@ -135,6 +139,35 @@ def unaryMinusSimplify (l r : ATm α) : Bool :=
       else false
   | _ => false
 
+/-- verit_div_simplify (as fixed by C18-27): `t / t = 1` for a numeral `t` that is not zero,
+`t / 1 = t`, or both sides constants with the same value -/
+def divSimplify (l r : ATm α) : Bool :=
+  match l with
+  | .div a b =>
+    (a = b && isConst b && (match evalC b with
+       | some v => v ≠ 0
+       | none => false) && r = .lit 1) ||
+    (a = r && b = .lit 1) ||
+    (isConst l && isConst r && (match evalC l, evalC r with
+       | some x, some y => x = y
+       | _, _ => false))
+  | _ => false
+
+/-- the right side of an eq_simplify goal -/
+inductive ERhs where
+  | tt | ff | other
+  deriving DecidableEq, Repr
+
+/-- verit_eq_simplify (as fixed by C18-11): `(t = t) <--> true`; `(c1 = c2) <--> false` for numerals of
+different value; `~(t = t) <--> false`.  `neg` = the left side is a negated equality. -/
+def eqSimplify (neg : Bool) (a b : ATm α) (rhs : ERhs) : Bool :=
+  if neg then a = b && rhs = .ff
+  else
+    (a = b && rhs = .tt) ||
+    (isConst a && isConst b && rhs = .ff && (match evalC a, evalC b with
+       | some x, some y => x ≠ y
+       | _, _ => false))
+
 end generic
 
 -- ------------------------------------------------------------------ semantics
@@ -171,5 +204,8 @@ def minusSimplifyQ := @minusSimplify Rat _ _ _ _ _ _ _ _
 def minusSimplifyZ := @minusSimplify Int _ _ _ _ _ _ _ _
 def unaryMinusSimplifyQ := @unaryMinusSimplify Rat _ _ _ _ _ _ _ _
 def unaryMinusSimplifyZ := @unaryMinusSimplify Int _ _ _ _ _ _ _ _
+def divSimplifyQ := @divSimplify Rat _ _ _ _ _ _ _ _
+def eqSimplifyQ := @eqSimplify Rat _ _ _ _ _ _ _ _
+def eqSimplifyZ := @eqSimplify Int _ _ _ _ _ _ _ _
 
 end Holpy.C18.Arith
